@@ -80,6 +80,7 @@ MUTATIONS = {
         ('clientglue', 'tonic/src/client/grpc.rs', r'if let Some\(trailers\) = body\.trailers\(\)\.await\? \{', 'if let Ok(Some(trailers)) = body.trailers().await {', 'error status in the trailers of a unary call ignored'),
     ],
     'C03': [
+        ('encode', 'tonic/src/codec/encode.rs', r'fn is_end_stream\(&self\) -> bool \{\s*self\.state\.is_end_stream\s*\}', 'fn is_end_stream(&self) -> bool {\n        !self.state.is_end_stream\n    }', 'the body claims to be over before its trailers went out'),
         ('prostcodec', 'tonic/src/codec/prost.rs', r'item\.encode\(buf\)\s*\.expect\("Message only errors if not enough space"\);', 'let _ = &item;', 'the encoder writes nothing'),
         ('encode', 'tonic/src/codec/encode.rs', r'error: None,\s*role: Role::Server,', 'error: None,\n                role: Role::Client,', 'server bodies built in the client role: no trailers'),
         ('serverglue', 'tonic/src/server/grpc.rs', r'\.insert\(http::header::CONTENT_TYPE, GRPC_CONTENT_TYPE\);', '.insert(http::header::CONTENT_TYPE, http::HeaderValue::from_static("application/json"));', 'response content-type'),
